@@ -422,6 +422,8 @@ pub fn ntru_gen(
             .chain(g.coefficients.iter())
             .any(|c| c.abs() >= fg_limit)
         {
+            #[cfg(falcon_rust_verif)]
+            crate::verif_hooks::probe("ntru_gen.reject_fg_range");
             continue;
         }
 
@@ -445,6 +447,8 @@ pub fn ntru_gen(
                 .chain(capital_g.coefficients.iter())
                 .any(|c| c.abs() >= (1 << 7))
             {
+                #[cfg(falcon_rust_verif)]
+                crate::verif_hooks::probe("ntru_gen.reject_FG_range");
                 continue;
             }
             return (
